@@ -75,6 +75,7 @@ func main() {
 	n := flag.Int("n", 200, "number of runs")
 	timeout := flag.Duration("gate-timeout", 5*time.Second, "gate timeout of the replay scheduler")
 	repeat := flag.Int("repeat", 1, "replay every behaviour this many times")
+	maxStuck := flag.Int("max-stuck", 3, "stop replaying after this many confirmed hangs")
 	proto := flag.String("proto", "session,gennaro", "runner mode: protocols")
 	flag.Parse()
 	network.VerifTraceHook = traceHook
@@ -82,7 +83,7 @@ func main() {
 	rc := 0
 	switch *mode {
 	case "replay":
-		rc = replayMode(*in, *out, *timeout, *repeat)
+		rc = replayMode(*in, *out, *timeout, *repeat, *maxStuck)
 	case "free":
 		rc = freeMode(*out, *seed, *n)
 	case "overflow":
